@@ -531,16 +531,27 @@ func (db *Database) limitResults(results []SearchResult, limit int) []SearchResu
 
 // performFuzzySearch conducts fuzzy search on the database
 func (db *Database) performFuzzySearch(query string, options SearchOptions) []SearchResult {
-	// Create search targets combining command and description
-	targets := make([]string, len(db.Commands))
+	// Create search targets combining command and description. Only commands that pass
+	// the platform and pipeline filters are candidates, exactly as on the lexical path.
+	targets := make([]string, 0, len(db.Commands))
+	targetDoc := make([]int, 0, len(db.Commands))
 	var builder strings.Builder
+	currentPlatform := getCurrentPlatform()
 
-	for i, cmd := range db.Commands {
+	for i := range db.Commands {
+		cmd := &db.Commands[i]
+		if !platformAllowed(cmd, options, currentPlatform) {
+			continue
+		}
+		if options.PipelineOnly && !isPipelineCommand(cmd) {
+			continue
+		}
 		builder.Reset()
 		builder.WriteString(cmd.Command)
 		builder.WriteByte(' ')
 		builder.WriteString(cmd.Description)
-		targets[i] = builder.String()
+		targets = append(targets, builder.String())
+		targetDoc = append(targetDoc, i)
 	}
 
 	// Perform fuzzy search
@@ -569,7 +580,7 @@ func (db *Database) performFuzzySearch(query string, options SearchOptions) []Se
 		}
 
 		results = append(results, SearchResult{
-			Command: &db.Commands[match.Index],
+			Command: &db.Commands[targetDoc[match.Index]],
 			Score:   normalizedScore,
 		})
 	}
